@@ -278,34 +278,9 @@ def sr_failed_clauses(c, r):
     return sorted(k for k, ok in cl.items() if not ok)
 
 
-def cost_overflows(c):
-    """does some `a + b` of Cost::mul reach 2^32 while evaluating the 20 expressions?"""
-    INF = None
-    a, b, cc = c["a"], c["b"], c["c"]
-    over = [False]
-
-    def add(x, y):
-        return y if x is INF else x if y is INF else min(x, y)
-
-    def mul(x, y):
-        if x is INF or y is INF:
-            return INF
-        if x + y >= U32:
-            over[0] = True
-        return (x + y) % U32
-    z, o = INF, 0
-    for v in (mul(a, b), mul(b, a), mul(mul(a, b), cc), mul(a, mul(b, cc)), mul(a, add(b, cc)),
-              add(mul(a, b), mul(a, cc)), mul(add(b, cc), a), add(mul(b, a), mul(cc, a)), mul(a, o), mul(o, a),
-              mul(a, z), mul(z, a)):
-        pass
-    return over[0]
-
-
 def finding_key(c, r):
     if not isinstance(r, dict):
         return None
-    if c["k"] == "sr" and c["ty"] == "cost" and c.get("profile") == "release" and cost_overflows(c):
-        return "Cost/mul/release-overflow-wraps"
     if c["k"] == "sr" and c["ty"] == "confidence" and sr_failed_clauses(c, r) == ["mul-assoc"]:
         return "ConfidenceScore/mul/not-associative"
     return None
@@ -832,6 +807,5 @@ THEOREMS = [
     "C09_multiplicity_semiring",
     "C09_cost_semiring",
     "C09_confidence_mul_assoc_refuted",
-    "C09_cost_release_overflow_refuted",
     "C09_fuzzy_semiring",
 ]
